@@ -70,6 +70,9 @@ Parents(s, b) == IF Rel = "m2m" THEN {a \in AIds : <<a, b>> \in s.L}
                  ELSE IF s.B[b].a = 0 THEN {} ELSE {s.B[b].a}
 
 HasLinks == Rel \in {"m2m", "mix"}
+(* a many-to-many link can be changed from either end (1: a.bs.add(b), 2: b.as_.add(a)); which end is used decides which
+   side's pending sets record the change, so it is part of the call *)
+LinkSides == IF Rel = "m2m" THEN {1, 2} ELSE {0}
 IsO2M == Rel \in {"o2m", "mix"}
 Links(s, a) == {b \in BIds : <<a, b>> \in s.L}
 LinksB(s, b) == {a \in AIds : <<a, b>> \in s.L}
@@ -321,38 +324,40 @@ SetMany(k, y, z) ==
              /\ UNCHANGED <<db, tx, sess>>
 
 (* a.bs.add(b) *)
-CollAdd(a, b) ==
+CollAdd(a, b, y) ==
+    /\ y \in LinkSides
     /\ Open /\ Rel # "o2o" /\ cur.A[a].ex /\ cur.B[b].ex /\ b \notin Kids(cur, a)
     /\ \/ /\ cur' = IF Rel = "m2m" THEN [cur EXCEPT !.L = @ \cup {<<a, b>>}] ELSE [cur EXCEPT !.B[b].a = a]
           /\ known' = known \cup {<<"A", a>>, <<"B", b>>}
-          /\ ev' = Ev("CollAdd", "A", a, b, 0, "ok", {})
+          /\ ev' = Ev("CollAdd", "A", a, b, y, "ok", {})
           /\ UNCHANGED <<db, tx, sess, pendNew, pendDel, loadedB>>
-       \/ TFail("CollAdd", "A", a, b, 0)
+       \/ TFail("CollAdd", "A", a, b, y)
 
 (* a.bs.remove(b) *)
-CollRemove(a, b) ==
+CollRemove(a, b, y) ==
+    /\ y \in LinkSides
     /\ Open /\ Rel # "o2o" /\ cur.A[a].ex /\ b \in Kids(cur, a)
     /\ \/ /\ Rel = "m2m"
           /\ cur' = [cur EXCEPT !.L = @ \ {<<a, b>>}]
           /\ UNCHANGED <<pendNew, pendDel>>
           /\ known' = known \cup {<<"A", a>>, <<"B", b>>}
-          /\ ev' = Ev("CollRemove", "A", a, b, 0, "ok", {})
+          /\ ev' = Ev("CollRemove", "A", a, b, y, "ok", {})
           /\ UNCHANGED <<db, tx, sess, loadedB>>
        \/ /\ IsO2M /\ Casc
           /\ cur' = RemoveB(cur, {b})
           /\ AfterDelete({<<"B", b>>})
           /\ known' = known \cup {<<"A", a>>, <<"B", b>>}
-          /\ ev' = Ev("CollRemove", "A", a, b, 0, "ok", {})
+          /\ ev' = Ev("CollRemove", "A", a, b, y, "ok", {})
           /\ UNCHANGED <<db, tx, sess, loadedB>>
        \/ /\ IsO2M /\ ~Casc /\ ~BReq
           /\ cur' = UnlinkB(cur, {b})
           /\ UNCHANGED <<pendNew, pendDel>>
           /\ known' = known \cup {<<"A", a>>, <<"B", b>>}
-          /\ ev' = Ev("CollRemove", "A", a, b, 0, "ok", {})
+          /\ ev' = Ev("CollRemove", "A", a, b, y, "ok", {})
           /\ UNCHANGED <<db, tx, sess, loadedB>>
        \/ /\ IsO2M /\ ~Casc /\ BReq
-          /\ Fail("CollRemove", "A", a, b, 0, "ValueError", {<<"A", a>>, <<"B", b>>})
-       \/ TFail("CollRemove", "A", a, b, 0)
+          /\ Fail("CollRemove", "A", a, b, y, "ValueError", {<<"A", a>>, <<"B", b>>})
+       \/ TFail("CollRemove", "A", a, b, y)
 
 (* a.bs = S  (assignment of a whole collection: items that leave it are removed as by remove(), new ones are added;
    all or nothing). S is passed in the event as a bit mask over BIds. *)
@@ -408,21 +413,23 @@ CollClear(a) ==
           \/ TFail("CollClear", "A", a, 0, 0)
 
 (* "mix" only: the many-to-many collection a.ls / b.as_ next to the one-to-many a.bs *)
-LAdd(a, b) ==
+LAdd(a, b, y) ==
+    /\ y \in {1, 2}
     /\ Open /\ Rel = "mix" /\ cur.A[a].ex /\ cur.B[b].ex /\ <<a, b>> \notin cur.L
     /\ \/ /\ cur' = [cur EXCEPT !.L = @ \cup {<<a, b>>}]
           /\ known' = known \cup {<<"A", a>>, <<"B", b>>}
-          /\ ev' = Ev("LAdd", "A", a, b, 0, "ok", {})
+          /\ ev' = Ev("LAdd", "A", a, b, y, "ok", {})
           /\ UNCHANGED <<db, tx, sess, pendNew, pendDel, loadedB>>
-       \/ TFail("LAdd", "A", a, b, 0)
+       \/ TFail("LAdd", "A", a, b, y)
 
-LRemove(a, b) ==
+LRemove(a, b, y) ==
+    /\ y \in {1, 2}
     /\ Open /\ Rel = "mix" /\ cur.A[a].ex /\ <<a, b>> \in cur.L
     /\ \/ /\ cur' = [cur EXCEPT !.L = @ \ {<<a, b>>}]
           /\ known' = known \cup {<<"A", a>>, <<"B", b>>}
-          /\ ev' = Ev("LRemove", "A", a, b, 0, "ok", {})
+          /\ ev' = Ev("LRemove", "A", a, b, y, "ok", {})
           /\ UNCHANGED <<db, tx, sess, pendNew, pendDel, loadedB>>
-       \/ TFail("LRemove", "A", a, b, 0)
+       \/ TFail("LRemove", "A", a, b, y)
 
 (* a.delete() *)
 DeleteA(a) ==
@@ -614,7 +621,7 @@ Modify == \/ \E k \in AIds, x \in ValsN : CreateA(k, x) \/ SetV(k, x)
           \/ \E k \in BIds, y \in ValsN : SetU(k, y)
           \/ \E k \in BIds, z \in AIds \cup {0} : SetRef(k, z)
           \/ \E k \in BIds, y \in ValsN, z \in AIds \cup {0} : SetMany(k, y, z)
-          \/ \E a \in AIds, b \in BIds : CollAdd(a, b) \/ CollRemove(a, b) \/ LAdd(a, b) \/ LRemove(a, b)
+          \/ \E a \in AIds, b \in BIds, y \in 0 .. 2 : CollAdd(a, b, y) \/ CollRemove(a, b, y) \/ LAdd(a, b, y) \/ LRemove(a, b, y)
           \/ \E a \in AIds, S \in SUBSET BIds : CollSet(a, S)
           \/ \E a \in AIds : CollClear(a) \/ DeleteA(a) \/ BulkDeleteA(a)
           \/ \E b \in BIds : DeleteB(b)
